@@ -262,6 +262,8 @@ pub fn sync_op(kind: &str, slave: &str, opts: &[&str], ops: &[&str]) -> Option<(
             _ => return None,
         }
     }
+    let step_closes: Vec<bool> = steps.iter().map(|s| s.close).collect();
+    let mut call_idx = 0usize;
     let received: Arc<Mutex<Vec<Vec<u8>>>> = Default::default();
     let (go_tx, go_rx) = std::sync::mpsc::channel::<()>();
     let mut ctx: AnyCtx;
@@ -368,6 +370,13 @@ pub fn sync_op(kind: &str, slave: &str, opts: &[&str], ops: &[&str]) -> Option<(
                     }
                     std::thread::sleep(Duration::from_millis(5));
                 }
+                // a pseudo-terminal has no orderly end of stream: when the master side closes, the
+                // slave's read fails with EIO – or reports 0 bytes, depending on what the kernel
+                // had queued.  Both say "the line is gone"; the step is rendered as the scripted
+                // transport renders a close.
+                let closes = call_idx < step_closes.len() && step_closes[call_idx];
+                let r = if kind == "rtu" && closes && r.starts_with("tr:k?") { "tr:bp".to_string() } else { r };
+                call_idx += 1;
                 outs.push(format!("{r} w={} sd=0", hex(&w)));
             }
             None => outs.push("ok".into()),
